@@ -23,7 +23,8 @@ From HV Require Import FloatIO FileSys C11Corr.
 Import ListNotations.
 """
 
-PATHS = ["a.h5", "b.h5", "c.npy"]
+PATHS = ["a.h5", "b.h5", "c.npy"]        # the files
+GIVEN = ["a.h5", "b", "c.npy"]           # the names handed to sample() / Samples(): "b" is completed to "b.h5" by the library
 
 BEFORE = ["proposals_zero", "proposals_float", "thinning_zero", "thinning_not_dividing", "not_a_distribution", "filename_not_str"]
 AFTER = ["initial_model_shape", "initial_misfit_inf", "max_time_negative", "stepsize_negative", "stepsize_text",
@@ -79,7 +80,7 @@ def gen_ops(rnd, tier):
 def do_sample(wd, sampler, kind, p, ow, stage):
     import hmclab
     target = hmclab.Distributions.Normal(numpy.array([[0.5], [-0.25]]), numpy.array([[1.0], [2.0]]))
-    fname = os.path.join(wd, PATHS[p])
+    fname = os.path.join(wd, GIVEN[p])
     kw = dict(proposals=4, online_thinning=2, overwrite_existing_file=ow, disable_progressbar=True,
               initial_model=numpy.zeros((2, 1)))
     if kind == "hmc":
@@ -145,7 +146,7 @@ def run_impl(ops, wd):
             elif op[0] == "openw":
                 _, p, ow = op
                 try:
-                    s = hmclab.Samples(os.path.join(wd, PATHS[p]), mode="w", overwrite=ow)
+                    s = hmclab.Samples(os.path.join(wd, GIVEN[p]), mode="w", overwrite=ow)
                     s.close()
                     del s
                 except FileExistsError:
